@@ -691,6 +691,10 @@ class _function(object):
         if type(other) is int or type(other) is float: 
             other = matrix(other, tc='d')
 
+        if _isspmatrix(other) and other.size[1] == 1 == len(self) and \
+            other.size != (1,1):
+            other = matrix(other, tc='d')
+
         if (_ismatrix(other) and other.size == (1,1)) or \
             (_isdmatrix(other) and other.size[1] == 1 == len(self)):
 
@@ -702,8 +706,10 @@ class _function(object):
                 f._constant = matrix(0.0, (len(self),1))
                 return f
 
-            if len(self._constant) != 1 or self._constant[0]:
-                # skip if self._constant is zero
+            if len(self._constant) != 1 or self._constant[0] or \
+                other.size != (1,1):
+                # skip if self._constant is zero (and the length 
+                # does not change)
                 f._constant = self._constant*other
 
             if self._linear._coeff: 
@@ -755,7 +761,10 @@ class _function(object):
                 f._constant = matrix(0.0, (len(self),1))
                 return f
 
-            if len(self._constant) != 1 or self._constant[0]:
+            if len(self._constant) != 1 or self._constant[0] or \
+                other.size[0] != lg:
+                # skip if self._constant is zero (and the length 
+                # does not change)
                 if 1 == len(self._constant) != lg and \
                     not _isscalar(other):
                     f._constant = other * self._constant[lg*[0]]
